@@ -138,4 +138,15 @@ PROPS = {
     "C16": {"lean": "ICG.Props.C16", "streams": [("corr_env", "C16")], "quick_s": 60, "thorough_s": 600, "rule": _ENV_RULE,
             "assumptions": ["the coalition sampled by np.random.choice is an input of the model, which checks that it was a legal choice",
                             "'of length n' holds exactly when a coalition of size n-1 is explorable (proved: length = max explorable size + 1)"]},
+    # not one of the 20 given properties: the `multiplicative` sub-package, modelled and proved as part of growing the model over the
+    # system's behaviour; run with `harness/check.py X-mul`; not in MANIFEST.json (tools_gen_manifest.py lists C01..C20 only)
+    "X-mul": {"lean": ["ICG.Props.Mul", "ICG.Lemmas.MulFactor", "ICG.Lemmas.MulXos", "ICG.Lemmas.MulApprox", "ICG.Lemmas.MulCompose",
+                       "ICG.Lemmas.MulPin10Game", "ICG.Lemmas.MulPin10"],
+              "streams": [("corr_mul", "X-mul")], "quick_s": 40, "thorough_s": 600,
+              "rule": ("five sub-streams on real objects: factor (n = 0..5 quick / 0..7 thorough; dyadic complete / approximated / incomplete games, ~40 % malformed), kr "
+                       "(_get_k_r_values, n = 0..64 plus a sample up to 10^6), xos / maxsub (n = 1..6 / 1..8 on five exact game families), maxxos (candidates, approximation, "
+                       "end to end for several alpha / beta / eps, two pinned counterexample games and one beta < 1/2 case under a watchdog); oracle on the real code: attained "
+                       "upper bound >= 1, relations between the factors, telescoping, subset / size / queried form, approximation <= game on submodular families; distinct by (part, n, inputs)"),
+              "assumptions": ["math.sqrt: k-values are symbolic, comparisons decided by squaring (4^k < n); IEEE rounding outside the theorems (exact dyadic inputs, three-point eps guard)"],
+              "trusted": ["float64 sqrt and rounding of the threshold schedule"]},
 }
